@@ -137,7 +137,7 @@ def run_model(ctx, wd, name, K, replay_responses):
                       "retry": RETRY[p["retry"]]} for p in st["parsed"]]
             if mp != model:
                 raise common.MachineryError("harness parser disagrees with SseWire.tla Parse on %r: %r vs %r" % (mw, mp, model))
-            if replay_responses and len(dicts) >= 1 and n % (11 if ctx.tier == "quick" else 3) == 0:
+            if replay_responses and len(dicts) >= 1 and n % (11 if ctx.tier == "quick" else 9) == 0:
                 for iface in ("wsgi", "asgi"):
                     from ..recipes import stream
                     kw = {} if charset == "utf-8" else {"charset": charset}
